@@ -481,7 +481,7 @@ Definition resolve (G : decls) (st : state) (l : lhs) (e : expr) (blocking : boo
       | None => Err EOther
       | Some f =>
           bind (eval G st e) (fun v =>
-          if negb blocking && negb (match p, fstruct f with [], None => true | _, _ => false end) then Err EOther else
+          if negb blocking && negb (match p with [] => true | _ => false end) then Err EOther else
           bind (spec_store (fw f) (to_operand v)) (fun u =>
           Ok (AWrite blocking s (flo f) (flo f + fw f) u)))
       end
